@@ -89,6 +89,7 @@ static void mon_c02(World& w, const char* prop) {
         if (!is_user_op(o) || o.expect_reject) continue;
         if (o.kind == Action::PUB && o.qos == 0) { if (o.completions && transport_error(o.ec) && o.epoch == w.ops.back().epoch) {} continue; }
         bool cancelled_by_caller = o.signalled != 0 || o.epoch != (w.epoch - (w.sc.epilogue_cancel ? 1 : 0)) ;
+        for (auto ts : w.stop_times) if (ts >= o.t_init && (o.completions == 0 || ts <= o.t_done)) cancelled_by_caller = true;   // the whole client was stopped while the op was outstanding
         if (cancelled_by_caller || o.after_stop) continue;   // ops issued on a client that is not running are not 'accepted and retried'
         if (o.completions == 0 || (o.t_done >= 0 && o.ec == asio::error::operation_aborted && w.drain_result.done && o.completions == 1 && o.wire_mark_done == w.broker->wire.size() && w.capped)) {
             w.vio(P + ":not-completed:" + opname(o) + ":" + sn, "accepted " + opname(o) + " (tag " + std::to_string(o.tag) + ") had not completed " + (w.capped ? "when the " + w.cap_reason + " was reached" : "although no event is enabled any more") + " after a fault-free suffix");
@@ -228,7 +229,7 @@ static void mon_c05_stop(World& w) {
     if (!w.stop_snap.done) return;
     std::string what = w.sc.inject ? std::string(w.sc.inject->k == Action::CANCEL ? "cancel" : w.sc.inject->k == Action::DISC ? "async_disconnect" : w.sc.inject->k == Action::DESTROY ? "destruction" : w.sc.inject->k == Action::MOVE_ASSIGN ? "move-assignment" : "stop") : "stop";
     for (auto& o : w.ops) {
-        if (o.epoch != 0 || o.kind == Action::DISC) continue;       // ops of the stopped incarnation
+        if (o.epoch != 0 || o.kind == Action::DISC || o.after_stop) continue;       // ops of the stopped incarnation (not those issued on the stopped client afterwards)
         if (o.t_done >= 0 && o.t_done > w.t_stop && o.ec != asio::error::operation_aborted && !(o.kind == Action::RECV && o.ec == boost::system::errc::success && false))
             w.vio("C05:not-aborted-after-" + what + ":" + opname(o) + ":" + sn, opname(o) + " completed with '" + o.ec.message() + "' after the client had been stopped (" + what + ")");
     }
@@ -249,7 +250,7 @@ static void mon_c09(World& w) {
     int64_t dt = d->t_done - d->t_init;
     if (dt > 5000000000LL) w.vio("C09:late-completion:" + sn, "async_disconnect completed " + std::to_string(dt / 1e9) + " s after initiation (limit 5 s)");
     // expected DISCONNECT packet
-    ref::Packet exp; exp.type = ref::DISCONNECT; exp.rc = d->rc < 0 ? 0 : uint8_t(d->rc); exp.props = d->props;
+    ref::Packet exp; exp.type = ref::DISCONNECT; exp.rc = uint8_t(d->qos); exp.has_rc = true; exp.has_props = true; exp.props = d->props;   // (the reason code given travels in the qos field of the record)
     // per connection: writes started after initiation
     std::map<int, std::vector<const sim::WriteLog*>> per;
     size_t restart_seq = SIZE_MAX; for (auto& o : w.ops) if (o.kind == Action::RUN && o.id > d->id) { restart_seq = o.op_seq_init; break; }
@@ -266,7 +267,10 @@ static void mon_c09(World& w) {
             if (pk.size() != 1 || r.st != ref::D_OK || r.pkt.type != ref::DISCONNECT) {
                 w.vio("C09:disconnect-not-first:" + sn, "after async_disconnect the first thing written on connection " + std::to_string(kv.first) + " is not a lone DISCONNECT (" + std::to_string(pk.size()) + " packet(s), first type " + ref::ptype_name(uint8_t(pk[0].second[0]) >> 4) + ")"); return; }
             uint8_t rc = r.pkt.has_rc ? r.pkt.rc : 0;
-            bool props_ok = ref::props_equal(r.pkt.props, exp.props) || (r.pkt.props.empty() && d->tag == 777 /* oversized: properties dropped */);
+            // properties are dropped exactly when the DISCONNECT as given would exceed the Maximum Packet Size this connection's CONNACK announced
+            uint64_t limit = UINT64_MAX; for (auto& e : w.broker->wire) if (e.conn == kv.first && !e.c2b && !e.malformed && e.pkt.type == ref::CONNACK) for (auto& pr : e.pkt.props) if (pr.id == 0x27) limit = pr.num;
+            bool must_drop = ref::encode(exp).size() > limit;
+            bool props_ok = must_drop ? r.pkt.props.empty() : ref::props_equal(r.pkt.props, exp.props);
             if (rc != uint8_t(d->qos) || !props_ok) { w.vio("C09:wrong-disconnect:" + sn, "DISCONNECT carries reason " + std::to_string(rc) + " / " + std::to_string(r.pkt.props.size()) + " properties instead of the values given"); return; }
             seen_disc = true;
         }
@@ -721,6 +725,9 @@ std::vector<Scenario> scenarios_for(const std::string& prop, int tier) {
             { auto s = base("D1-disconnect-after-traffic", {RUN(), PUB(1, 1), PUB(2, 2), PUB(0, 3), DISC(0x04, {ref::pstr(0x1F, "bye")})}, F_WR | F_RDCUT | F_BCLOSE | F_REORDER | F_SHUT | F_WRSHORT, 2, mon); s.idle_tail_s = 120; s.epilogue_cancel = false; s.expect_all_success = false; v.push_back(s); s.name += "-tcp"; s.flavour = 1; v.push_back(s); }
             { Action d = DISC(0x00, {ref::pstr(0x1F, std::string(200, 'r')), ref::ppair("k", "v")}); d.tag = 777;
               auto s = base("D2-oversized-disconnect", {RUN(), PUB(1, 1), BARRIER(), d}, F_WR | F_RDCUT | F_REORDER, 1, mon); s.broker.connack_props = {ref::pnum(0x27, 60)}; s.idle_tail_s = 30; s.epilogue_cancel = false; s.expect_all_success = false; v.push_back(s); }
+            // Maximum Packet Size boundary: a DISCONNECT of exactly the announced size still goes out as given
+            { ref::Packet e; e.type = ref::DISCONNECT; e.rc = 0x04; e.has_rc = true; e.has_props = true; e.props = {ref::pstr(0x1F, "maintenance window"), ref::ppair("site", "zagreb-2")}; int n = int(ref::encode(e).size());
+              for (int delta : {-1, 0, 1}) { auto s = base("D4-disconnect-size-edge-" + std::to_string(delta + 1), {RUN(), PUB(1, 1), BARRIER(), DISC(0x04, e.props)}, F_WR | F_RDCUT | F_REORDER, 1, mon); s.broker.connack_props = {ref::pnum(0x27, uint32_t(n + delta))}; s.idle_tail_s = 30; s.epilogue_cancel = false; s.expect_all_success = false; v.push_back(s); } }
             { auto s = base("D3-disconnect-unreachable", {RUN(), PUB(1, 1), DISC(0)}, F_CONN | F_HS | F_REORDER, 3, mon); s.hosts = "b0,b1"; s.idle_tail_s = 120; s.epilogue_cancel = false; s.expect_all_success = false; v.push_back(s); }
         }
     }
@@ -760,6 +767,15 @@ std::vector<Scenario> scenarios_for(const std::string& prop, int tier) {
         { auto s = base("S3-two-brokers", {RUN(), PUB(1, 1), PUB(1, 2)}, fam, 2, M_C11); s.hosts = "b0,b1"; v.push_back(s); }
         { auto s = base("S5-finenet-failures", {RUN(), PUB(1, 1), PUB(2, 2), SUB({{"a", 1}})}, F_FINENET | F_WR | F_RDCUT | F_REORDER | F_BCLOSE, 2, M_C11); v.push_back(s); s.name += "-tcp"; s.flavour = 1; v.push_back(s); }
         { auto s = base("S6-slow-dns-failures", {RUN(), PUB(1, 1), PUB(2, 2)}, F_WR | F_RDCUT | F_REORDER | F_CONN | F_HS | F_LOSS, 2, M_C11); s.hosts = "b0,b1"; s.gate_dns = true; v.push_back(s); }
+        // terminal cancellation of async_run keeps the same service object (no swap): queued reconnect requests are cancelled while one is in progress, then the client is run again
+        { auto s = base("S7-terminal-signal-then-rerun", {slot(RUN()), PUB(1, 1), PUB(2, 2)}, F_WR | F_RDCUT | F_CONN | F_INJECT | F_FINE, 3, M_C11 | M_C05); s.inject = SIGNAL(0, 4); s.after_inject = {RUN(), PUB(1, 90)}; s.expect_all_success = false; s.max_steps = 900; v.push_back(s);
+          s.name += "-tcp"; s.flavour = 1; v.push_back(s); }
+        // ... and run again from inside async_run's completion handler, while cancelled write-side handlers may not have unwound yet
+        // (running again before async_run has completed would be two concurrent async_run on one client: not judged)
+        { auto s = base("S8-terminal-signal-rerun-in-handler", {slot(RUN()), PUB(1, 1), PUB(2, 2)}, F_WR | F_RDCUT | F_INJECT | F_FINE, 2, M_C11 | M_C05); s.inject = SIGNAL(0, 4); s.on_complete[0] = {RUN(), PUB(1, 90), PUB(0, 91)}; s.expect_all_success = false; s.max_steps = 900; v.push_back(s);
+          s.name += "-tcp"; s.flavour = 1; v.push_back(s); }
+        // the same with slow DNS: the cancelled holder may still sit in a lookup that asio cannot abort when the client runs again
+        { auto s = base("S9-terminal-signal-rerun-slow-dns", {slot(RUN()), PUB(1, 1), PUB(2, 2)}, F_WR | F_RDCUT | F_INJECT, 2, M_C11 | M_C05); s.inject = SIGNAL(0, 4); s.on_complete[0] = {RUN(), PUB(1, 90), PUB(0, 91)}; s.hosts = "b0,b1"; s.gate_dns = true; s.expect_all_success = false; s.max_steps = 900; v.push_back(s); }
         { auto s = base("S4-cancel-during-reconnect", {RUN(), PUB(1, 1)}, fam | F_INJECT | F_FINE, 2, M_C11 | M_C05); s.inject = CANCEL(); s.expect_all_success = false; v.push_back(s); }
     }
     else if (prop == "C12") {
@@ -806,7 +822,7 @@ std::vector<Scenario> scenarios_for(const std::string& prop, int tier) {
         int id = 0;
         auto add = [&](bool unsub, int n, std::vector<uint8_t> rcs) { std::vector<std::pair<std::string, uint8_t>> f; std::vector<std::string> uf; const char* names[] = {"plain/t", "wild/+/#", "$share/g/sh"};
             for (int i = 0; i < n; ++i) { static const uint8_t optv[] = {0x01, 0x2E, 0x1A}; f.emplace_back(names[i], optv[i]); uf.push_back(names[i]); }
-            Scenario s = base(std::string(unsub ? "U" : "S") + std::to_string(n) + "-" + std::to_string(id++), {RUN(), unsub ? UNSUB(uf, {ref::ppair("k", "v")}) : SUB(f, {ref::pnum(0x0B, 9), ref::ppair("k", "v")})}, tier ? (F_REORDER | F_CHUNK | F_RDCUT | F_WR) : F_REORDER, tier ? 2 : 1, M_C14 | M_C02);
+            Scenario s = base(std::string(unsub ? "U" : "S") + std::to_string(n) + "-" + std::to_string(id++), {RUN(), unsub ? UNSUB(uf, {ref::ppair("k", "v")}) : SUB(f, {ref::pnum(0x0B, 9), ref::ppair("k", "v")})}, tier ? (F_REORDER | F_CHUNK | F_RDCUT | F_WR) : F_REORDER, (tier && n <= 2 && rcs.size() <= 2) ? 2 : 1, M_C14 | M_C02);
             if (unsub) s.broker.unsuback_script = {rcs}; else s.broker.suback_script = {rcs}; s.broker.ack_props = true; v.push_back(s); };
         for (int unsub = 0; unsub < 2; ++unsub) for (int n = 1; n <= 3; ++n) for (int cnt = std::max(1, n - 1); cnt <= n + 1; ++cnt) {
             std::vector<int> ix(cnt, 0);
